@@ -176,6 +176,7 @@ def run(ck, prop):
             "rows disjoint, positions inside their class window, all 198 test rows reproduced; a second, independently encoded "
             "transcription lives in harness/maptool.go (falsifier clause C05.region_table)")
     errs = vlib.run_gen("mappers")
+    vlib.fallback_obligations(ck, ["GenMap_" + m for m in MAPPERS])
     harness, herr = vlib.build_harness()
     if harness is None:
         ck.oblige("build Go harness against the tree under test", False, herr)
